@@ -390,6 +390,7 @@ package bchutil
 //@   requires net != nil
 //@   ensures err == nil ==> result0 != nil && fresh(result0) && result0.pubKey != nil && result0.pubKeyHashID == net.LegacyPubKeyHashAddrID
 //@   ensures err == nil ==> (len(serializedPubKey) == 33 || len(serializedPubKey) == 65)
+//@   ensures err == nil ==> (len(serializedPubKey) == 33 && (serializedPubKey[0] == 2 || serializedPubKey[0] == 3)) || (len(serializedPubKey) == 65 && (serializedPubKey[0] == 4 || serializedPubKey[0] == 6 || serializedPubKey[0] == 7))
 //@   ensures err == nil ==> result0.pubKeyFormat == ((serializedPubKey[0] == 2 || serializedPubKey[0] == 3) ? PKFCompressed : ((serializedPubKey[0] == 6 || serializedPubKey[0] == 7) ? PKFHybrid : PKFUncompressed))
 //@   ensures err != nil ==> result0 == nil
 //@   modifies nothing
